@@ -73,7 +73,51 @@ func refEntropy(w [mailbox.NumPassphraseWords]string) ([mailbox.NumPassphraseEnt
 	return e, true
 }
 
+// runC17CallbackFault: two paired parties run the key-based handshake again
+// (every reconnect does) and the application callback that persists the remote
+// key fails on one side. Whatever that does to the handshake, the secret the
+// identifiers are derived from has not changed: both parties must still derive
+// the same, key-based identifier.
+func runC17CallbackFault(c *mon.Case) {
+	rng := c.Rng
+	pass := eng.Entropy(rng)
+	keyC, keyS := eng.NewKey(rng), eng.NewKey(rng)
+	cfg := eng.HSConfig{KK: true, CMin: 2, CMax: 2, SMin: 2, SMax: 2, PassC: pass, PassS: pass, Auth: []byte("a"), KeyC: keyC, KeyS: keyS}
+	who := []string{"client", "server", "both"}[rng.Intn(3)]
+	if who != "server" {
+		cfg.FailRemoteCBC = 1
+	}
+	if who != "client" {
+		cfg.FailRemoteCBS = 1
+	}
+	r := eng.RunHandshake(cfg)
+	if r.C.NewErr != nil || r.S.NewErr != nil {
+		c.Shard.Inconc("machine construction failed")
+		return
+	}
+	want, err := mailbox.NewConnData(keyC, keyS.PubKey(), pass, nil, nil, nil).SID()
+	if err != nil {
+		c.Shard.Inconc(err.Error())
+		return
+	}
+	sc, e1 := r.C.CD.SID()
+	ss, e2 := r.S.CD.SID()
+	rep := map[string]any{"kind": "F", "callback_fails_on": who, "client_err": fmt.Sprint(r.C.Err), "server_err": fmt.Sprint(r.S.Err)}
+	if e1 != nil || e2 != nil || sc != ss || sc != want {
+		c.Shard.Violate("sid-diverges-after-callback-fault", fmt.Sprintf("paired parties, key-based handshake with the remote-key callback failing on %s: afterwards client SID %x.. server SID %x.. key-derived SID %x.. (errors %v / %v)", who, sc[:4], ss[:4], want[:4], e1, e2), rep)
+	}
+	if r.C.CD.HandshakePattern().Name != mailbox.KK || r.S.CD.HandshakePattern().Name != mailbox.KK {
+		c.Shard.Violate("pattern-reverts-after-callback-fault", fmt.Sprintf("paired parties, remote-key callback failing on %s: a party would use the passphrase pattern again", who), rep)
+	}
+	c.Shard.Count("callback_fault_handshakes", 1)
+	c.Shard.Eval(fmt.Sprintf("F|%s|%x", who, sc[:3]))
+}
+
 func runC17(c *mon.Case) {
+	if c.Idx%16 == 4 {
+		runC17CallbackFault(c)
+		return
+	}
 	switch c.Idx % 8 {
 	case 7:
 		runC17Conns(c)
@@ -353,6 +397,49 @@ func runC17Conns(c *mon.Case) {
 	}
 	if !sawSend[full(cl.SID)] || !sawRecv[full(cl.SID)] || !sawSend[full(cr.SID)] || !sawRecv[full(cr.SID)] || len(sawSend) != 2 || len(sawRecv) != 2 {
 		c.Shard.Violate("relay-streams", fmt.Sprintf("the relay saw send streams %v and receive streams %v; expected exactly %s and %s in both roles", keysOf(sawSend), keysOf(sawRecv), full(cl.SID), full(cr.SID)), nil)
+	}
+	// The connection objects are re-created for every new connection of a
+	// session (Refresh*Conn): the refreshed pair must use the same two
+	// streams in the same roles.
+	if (c.Idx/8)%3 != 2 {
+		_ = cc.Close()
+		_ = sc.Close()
+		var cc2 *mailbox.ClientConn
+		var sc2 *mailbox.ServerConn
+		var ce2, se2 error
+		var wg2 sync.WaitGroup
+		wg2.Add(2)
+		go func() { defer wg2.Done(); sc2, se2 = mailbox.RefreshServerConn(sc) }()
+		go func() { defer wg2.Done(); cc2, ce2 = mailbox.RefreshClientConn(ctx, cc) }()
+		done2 := make(chan struct{})
+		go func() { wg2.Wait(); close(done2) }()
+		select {
+		case <-done2:
+		case <-time.After(60 * time.Second):
+			cancel()
+			<-done2
+		}
+		// the addresses are fixed at construction, whether or not the
+		// GBN handshake of the refreshed pair succeeded in time
+		if sc2 != nil {
+			l2, r2 := sc2.LocalAddr().(*mailbox.Addr), sc2.RemoteAddr().(*mailbox.Addr)
+			if l2.SID != sl.SID || r2.SID != sr.SID {
+				c.Shard.Violate("refresh-streams", fmt.Sprintf("the refreshed server connection sends on %s and receives on %s; the original used %s and %s", full(l2.SID), full(r2.SID), full(sl.SID), full(sr.SID)), nil)
+			}
+			defer sc2.Stop()
+		}
+		if cc2 != nil {
+			l2, r2 := cc2.LocalAddr().(*mailbox.Addr), cc2.RemoteAddr().(*mailbox.Addr)
+			if l2.SID != cl.SID || r2.SID != cr.SID {
+				c.Shard.Violate("refresh-streams", fmt.Sprintf("the refreshed client connection sends on %s and receives on %s; the original used %s and %s", full(l2.SID), full(r2.SID), full(cl.SID), full(cr.SID)), nil)
+			}
+			defer cc2.Close()
+		}
+		if sc2 == nil && cc2 == nil {
+			c.Shard.Inconc(fmt.Sprintf("refresh failed on both sides: %v / %v", ce2, se2))
+		} else {
+			c.Shard.Count("refreshed_conn_pairs", 1)
+		}
 	}
 	c.Shard.Count("conn_pairs", 1)
 	c.Shard.Eval(fmt.Sprintf("R|%d", c.Idx))
